@@ -43,6 +43,10 @@ CHECKS = {
    text="One-step differential between the real Hypergraph/DiHypergraph mutators and an executable transcription of their docstrings (vx/refmodel.py): same symbolic pre-state (labels, counter, attribute values), same op, same symbolic arguments through a twin run; on every path the full observable snapshot (node order, edge order, members or tail/head, three attribute levels, next automatic id), the outcome kind (returns / library error) and the warning behaviour agree. double_edge_swap and random_edge_shuffle (all redistributions through the RNG stub) keep every degree, size, id and attribute and exchange exactly what they document.",
    note="Trusted: the ~400-line reference model; ambiguous documentation points follow the implementation and are listed in the evidence assumptions. SimplicialComplex semantics are decided under C03.",
    technique="bounded symbolic execution (z3), differential against an executable reference model with shared symbolic arguments"),
+ "C09": dict(level=MC, ref="5/C09",
+   text="For every shape within the bound, node labels and edge ids are solver integers in a window (pairwise distinct within their kind), inserted in several orders; 36 measures (degree/size stats, neighbour average, three clustering coefficients, components, path lengths, densities, exact assortativities, simpliciality measures, maximal/duplicate/isolate/singleton sets, Katz centrality, incidence/adjacency/Laplacian/degree/clique-motif/intersection matrices through their index maps) are compared with the same measure on the canonical labelling; every comparison, sort or list index the code makes on labels is decided by z3 for all labelings in the window at once.",
+   note="Labels restricted to [-4,6] so that list[id] is reachable by exhaustive forking; set iteration follows insertion order during exploration (real hashing only in the concrete replay); floats compared with tolerance 1e-9; string labels outside.",
+   technique="bounded symbolic execution (z3) with windowed symbolic labels against a canonical-label reference run"),
 }
 NOT_APPLICABLE = {
  "C11": "disk round trips: every value that reaches a file passes through json/numpy C encoders which reject or realise a symbolic proxy, so no solver variable can cross the file boundary; in-memory halves are decided under C10/C04",
